@@ -180,8 +180,13 @@ def rule_b(ctx):
           written.setdefault(A.const_str(v), []).append((f, d))
   rf = idx.func(JC + 'resolve_typenames.<locals>._resolve_typename')
   dispatched = set()
+  def is_tag_read(e):
+    return isinstance(e, ast.Subscript) and 'TYPE_NAME_KEY' in A.unparse(e.slice)
+  tag_locals = {nm for st in ast.walk(rf.node) if isinstance(st, ast.Assign) and is_tag_read(st.value)
+                for nm in A.assigned_names(st.targets[0])}
   for n in ast.walk(rf.node):
-    if isinstance(n, ast.Compare) and A.unparse(n.left) == 'type_name' and isinstance(n.ops[0], ast.Eq):
+    if isinstance(n, ast.Compare) and isinstance(n.ops[0], ast.Eq) and (
+        is_tag_read(n.left) or (isinstance(n.left, ast.Name) and n.left.id in tag_locals)):
       s = A.const_str(n.comparators[0])
       if s:
         dispatched.add(s)
@@ -260,14 +265,28 @@ def rule_c(ctx):
          'every key carrying the int-key prefix is decoded with int(k[len(prefix):]) unconditionally',
          dec.loc, '; '.join(problems))
   # writer: condition is exactly isinstance(k, int)
-  conds = [A.unparse(n.test) for n in ast.walk(enc.node) if isinstance(n, ast.IfExp)]
-  ctx.ob('C05.c', enc.fq, conds == ['isinstance(k, int)'],
+  conds = []
+  ok_w = False
+  for dc in [n for n in ast.walk(enc.node) if isinstance(n, ast.DictComp)]:
+    tv = A.assigned_names(dc.generators[0].target)
+    if isinstance(dc.key, ast.IfExp) and tv:
+      K = tv[0]
+      t = dc.key.test
+      conds.append(A.unparse(t))
+      ok_w = (isinstance(t, ast.Call) and A.call_name(t) == 'isinstance' and len(t.args) == 2
+              and A.unparse(t.args[0]) == K and A.unparse(t.args[1]) == 'int'
+              and isinstance(dc.key.body, ast.JoinedStr) and A.unparse(dc.key.orelse) == K
+              and any(isinstance(v, ast.FormattedValue) and A.unparse(v.value) == K for v in dc.key.body.values))
+  ctx.ob('C05.c', enc.fq, ok_w and len(conds) == 1,
          'every int key (and only int keys) is prefixed by the writer', enc.loc,
          f'writer condition(s): {conds}')
   # both recurse into dicts and lists
   for f in (enc, idx.func(SB + 'from_json_str.<locals>._decode_int_keys')):
-    txt = A.unparse(f.node, 2000)
-    ok = 'isinstance(v, dict)' in txt and 'isinstance(v, list)' in txt and txt.count(f.name + '(') >= 3
+    prm = A.param_names(f.node)[0]
+    kinds = {A.unparse(c.args[1]) for c in A.calls_in(f.node) if A.call_name(c) == 'isinstance' and len(c.args) == 2
+             and A.unparse(c.args[0]) == prm}
+    rec = [c for c in A.calls_in(f.node) if A.call_name(c) == f.node.name]
+    ok = {'dict', 'list'} <= kinds and len(rec) >= 2
     ctx.ob('C05.c', f.fq + '#recursion', ok, 'the key transform recurses through dicts and lists',
            f.loc, 'recursion over dict/list values changed')
 
